@@ -4,8 +4,13 @@
    yield exactly the fields XcpContract states by position.  One initial state per (method, b1, b2, byte order). *)
 EXTENDS XcpCodec
 
+CONSTANT B2      \* the values of the second byte (quick: boundary values, thorough: 0..255)
+
 VARIABLES m, b1, b2, bo
 cvars == <<m, b1, b2, bo>>
+
+B2All   == 0..255
+B2Quick == {0, 1, 2, 3, 4, 7, 8, 15, 16, 31, 32, 63, 64, 85, 127, 128, 129, 170, 192, 193, 240, 254, 255}
 
 Rep(n, b) == [i \in 1..n |-> b]
 
@@ -21,7 +26,7 @@ Resp == CASE m = "connect"            -> <<255, b1, b2, b1, b1, b2, b2, b1>>
 EffBo == IF m = "connect" THEN BO(Resp[3]) ELSE bo
 
 CInit == /\ m \in {"connect", "get_status", "get_comm_mode_info", "get_id", "upload"}
-         /\ b1 \in 0..255 /\ b2 \in 0..255
+         /\ b1 \in 0..255 /\ b2 \in B2
          /\ bo \in {"INTEL", "MOTOROLA"}
          /\ (m \in {"connect", "get_comm_mode_info", "upload"} => bo = "INTEL")   \* no free byte order there
 CNext == UNCHANGED cvars
